@@ -7,3 +7,4 @@ import DvidModel.Props.C18
 import DvidModel.Props.C07
 import DvidModel.Props.C12
 import DvidModel.Props.C04
+import DvidModel.Props.C03
